@@ -160,6 +160,7 @@ def extra(local, sc, cfg, sr, hev, wire, out):
     from props import acceptors
     acceptors.barrier(local, sc, cfg, hev, wire)
     acceptors.barrier_me(local, sc, cfg, hev, wire)
+    acceptors.flush(local, sc, cfg, hev, wire)     # barrier() relies on the flush loop's return-value rule
 
 
 def run(tier, seed, model_ok=True):
